@@ -218,14 +218,12 @@ func (a *analysis) addEdge(from, to string, w witness) {
 		a.edges[k] = e
 	}
 	e.Count++
-	if len(e.Witnesses) < 4 {
-		for _, o := range e.Witnesses {
-			if o == w {
-				return
-			}
+	for _, o := range e.Witnesses {
+		if o == w {
+			return
 		}
-		e.Witnesses = append(e.Witnesses, w)
 	}
+	e.Witnesses = append(e.Witnesses, w)
 }
 
 func callDesc(c *ssa.CallCommon) string {
@@ -240,7 +238,7 @@ func callDesc(c *ssa.CallCommon) string {
 
 func (a *analysis) noteUnfollowed(f *ssa.Function, c *ssa.CallCommon, kind string, held lockset, sum *summary) {
 	call := callDesc(c)
-	if sum != nil && len(sum.dyn) < 40 {
+	if sum != nil {
 		sum.dyn[call+" in "+fname(f)] = kind
 	}
 	a.recordUnfollowed(fname(f), a.pos(c.Pos()), kind, call, held)
@@ -347,9 +345,7 @@ func (a *analysis) applyStatic(f *ssa.Function, c *ssa.CallCommon, callee *ssa.F
 		return
 	}
 	for d, kind := range cs.dyn {
-		if len(sum.dyn) < 40 {
-			sum.dyn[d] = kind
-		}
+		sum.dyn[d] = kind
 		if len(held) > 0 {
 			a.recordUnfollowed(fname(f), a.pos(c.Pos()), kind, d+" (reached through "+fname(callee)+")", held)
 		}
@@ -555,6 +551,23 @@ func main() {
 		o.Packages = append(o.Packages, p.PkgPath)
 	}
 	for _, e := range a.edges {
+		// deterministic witnesses: shortest callee chain first, at most four
+		sort.Slice(e.Witnesses, func(i, j int) bool {
+			x, y := e.Witnesses[i], e.Witnesses[j]
+			if len(x.Via) != len(y.Via) {
+				return len(x.Via) < len(y.Via)
+			}
+			if x.Via != y.Via {
+				return x.Via < y.Via
+			}
+			if x.Func != y.Func {
+				return x.Func < y.Func
+			}
+			return x.Pos < y.Pos
+		})
+		if len(e.Witnesses) > 4 {
+			e.Witnesses = e.Witnesses[:4]
+		}
 		o.Edges = append(o.Edges, e)
 	}
 	sort.Slice(o.Edges, func(i, j int) bool {
@@ -568,7 +581,10 @@ func main() {
 		if x.Func != y.Func {
 			return x.Func < y.Func
 		}
-		return x.Pos < y.Pos
+		if x.Pos != y.Pos {
+			return x.Pos < y.Pos
+		}
+		return x.Call < y.Call
 	})
 	for k := range a.unknown {
 		o.Unknown = append(o.Unknown, k)
